@@ -59,16 +59,16 @@ Proof. vm_compute. auto. Qed.
 
 (* ---- the EXECUTABLE system (see Props/C05.v, c05_exec_refines) ----
    For every label sequence of the fault-free fragment, the results the callers are handed, in the
-   order they are handed out, are the echoes of a PREFIX of the issued requests in issue order:
-   every caller gets the decoded reply to its own request line, no reply is skipped, duplicated or
-   given to another caller. *)
+   order they are handed out, are the server's replies (echo, ACK, binary ... split as raw_command
+   does) to a PREFIX of the issued requests in issue order: every caller gets the decoded reply to
+   its own request line, no reply is skipped, duplicated or given to another caller. *)
 Theorem c01_exec_own_replies : forall cf labs gls, in_fragment cf labs gls ->
-  exists k, flat_map g_res (snd (xrun (xinit cf) labs)) = map echo_result (firstn k (flat_map issued_of gls)).
+  exists k, flat_map g_res (snd (xrun (xinit cf) labs)) = map (echo_result cf) (firstn k (flat_map issued_of gls)).
 Proof. exact exec_own_replies. Qed.
 
 Example c01_exec_example :
   flat_map g_res (snd (xrun (xinit ex_cf) ex_labs)) =
-    map echo_result [mkReq 1 (b "status" ++ [LF]); mkReq 2 (b "stats" ++ [LF]); mkReq 3 (b "currentsong" ++ [LF])] /\
+    map (echo_result ex_cf) [mkReq 1 (b "status" ++ [LF]); mkReq 2 (b "stats" ++ [LF]); mkReq 3 (b "currentsong" ++ [LF])] /\
   flat_map g_ev (snd (xrun (xinit ex_cf) ex_labs)) = map ev_text [b "player"; b "mixer"].
 Proof. exact ex_outcome. Qed.
 
